@@ -203,6 +203,17 @@ def run(F, tier, res):
             continue
         clears_handled = any(w[2] == 'assign' and w[1][-1][1] == HANDLED and w[3][2][0] == 'agg' for w in Ru.field_writes(F, q, None, HANDLED)) or \
             any(w[2] == 'assign' and w[1][-1][1] == HANDLED for w in Ru.field_writes(F, q, None, HANDLED))
+        def _fn_clears_handled(fn):
+            return any(w_[2] == 'assign' and w_[1][-1][1] == HANDLED for w_ in Ru.field_writes(F, fn, None, HANDLED))
+
+        def _reset_helper(fn, depth=0):
+            """a private helper of the per-section reset: every caller clears `handled` itself (or is such a helper)"""
+            if depth >= 2:
+                return False
+            callers = {p_ for p_ in F.fn_bodies for _, c_ in F.calls(p_) if callee_of(c_) == fn or (c_.get('resolved') or '') == fn}
+            return bool(callers) and all(_fn_clears_handled(p_) or _reset_helper(p_, depth + 1) for p_ in callers)
+        if not clears_handled and _reset_helper(q):
+            clears_handled = True
         for w in ws:
             nr += 1
             bb = w[0]
